@@ -1,0 +1,25 @@
+//go:build verif
+
+package p2p
+
+import pubsub "github.com/libp2p/go-libp2p-pubsub"
+
+// Verification hooks (build tag "verif"): read-only accessors used by the runtime-monitoring
+// harness. They add no behaviour.
+
+// VerifCombinedValidator returns the combined topic validator exactly as it is handed to libp2p
+// in P2PNode.Run.
+func (m *P2PMessaging) VerifCombinedValidator(topic string) pubsub.ValidatorEx {
+	return m.validatorRegistry.GetCombinedValidator(topic)
+}
+
+// VerifTopics returns all gossip topics the messaging layer would subscribe to.
+func (m *P2PMessaging) VerifTopics() []string {
+	return m.topics()
+}
+
+// VerifHasValidator reports whether a validator is registered for the topic.
+func (m *P2PMessaging) VerifHasValidator(topic string) bool {
+	_, ok := m.validatorRegistry[topic]
+	return ok
+}
